@@ -128,6 +128,10 @@ def classify(failure):
             return "C06-BIND"
     if "op:modify_type" in tags and "md-type:unreflectable" in tags:
         return "C06-T1"
+    if ("op:add_fk" in tags or "op:remove_fk" in tags) and "fk-default-schema" in tags:
+        return "C06-MAINFK"
+    if kind == "converge" and "op:modify_type" in tags and "md-type:enum-with-sqlite-variant" in tags:
+        return "C06-ENUMVAR"
     return None
 
 
